@@ -137,7 +137,10 @@ def run_case(args):
     if gfin in tf:
         for ds in h5oracle.PHYSICS_DATASETS:
             if ds in full and ds in leg2 and full[ds].shape[0] and leg2[ds].shape[0]:
-                ok, e = same(full[ds][tf[gfin]], leg2[ds][t2[n2]], None if exact else 2e-5, floor=1.0 if ds in ('/BunchPosition/data', '/EnergyAverage/data', '/BunchLength/data', '/EnergySpread/data') else 0.0)
+                # (not bit-exact case: the state differs by one rounding of the renormalisation, ~1e-6; wake and CSR datasets add the absolute
+                #  rounding noise of their single-precision transforms, which for a weak wake is a few 1e-5 of its maximum - C10 models that floor)
+                tol_ds = None if exact else (1e-4 if ds.startswith(("/WakePotential", "/CSR")) else 2e-5)
+                ok, e = same(full[ds][tf[gfin]], leg2[ds][t2[n2]], tol_ds, floor=1.0 if ds in ('/BunchPosition/data', '/EnergyAverage/data', '/BunchLength/data', '/EnergySpread/data') else 0.0)
                 out["compared"] += 1
                 if not ok:
                     out["viol"].append(("C11:final_record:" + ds, "derived dataset of the final record differs from the uninterrupted run", dict(w, dataset=ds, rel_err=e)))
